@@ -50,7 +50,7 @@ CHECKS = {
     'C07': {
         'text': 'Seeded worlds and sequences of every state-bearing uplink message kind with arbitrary field values (incl. unknown targets, corrupted and duplicated copies, '
                 'chunked delivery) interleaved at quiescent points with the user\'s commands; an executable reference model of the track state, fed with every processed '
-                'uplink message and every optimistic command in the simulator\'s global event order, must equal bidib_get_state at every quiescent point. Application-issued system resets and node lost / new notices are folded by the model as well (reset: every dynamic field back to its configured initial value); a lost MSG_NODE_LOST followed by a re-login elsewhere, feedback from the boards\' current addresses.',
+                'uplink message and every optimistic command in the simulator\'s global event order, must equal bidib_get_state at every quiescent point. Application-issued system resets and node lost / new notices are folded by the model as well (reset: every dynamic field back to its configured initial value); a lost MSG_NODE_LOST followed by a re-login elsewhere, feedback from the boards\' current addresses; low-level drive commands with a 1-3 ms auto-flush and a caller descheduled at lock points (the acknowledgement may arrive before the call returns); a command the library holds back takes effect in the model when the call returns.',
         'ref': 'DESIGN.md section 3 C07', 'note': NOTE_COMMON + '; sequentialised mode only (one event between quiescent points, internal threads still scheduled at random); the concurrent linearisation mode of the design is not built',
         'technique': 'deterministic simulation: SimBus events with transport faults + reference state model compared at quiescence',
     },
